@@ -65,8 +65,9 @@ def w_digest(case, opts):
         src = case["progs"][i]
         rec = E.run_js(src, {"max_steps": opts.get("max_steps", 3_000_000), "clock_base": case.get("clock_base", 1000.0),
                              "max_log": 5000})
-        res[str(i)] = h(diff.full_key(rec), 16)
-    out = {"digests": res, "hashseed": os.environ.get("PYTHONHASHSEED")}
+        # (the message of an engine error is part of what the embedder observes: "operand 257 exceeds ..." must not vary either)
+        res[str(i)] = h([diff.full_key(rec), (rec.get("err") or {}).get("msg"), rec.get("abort")], 16)
+    out = {"digests": res, "hashseed": os.environ.get("PYTHONHASHSEED"), "str_hash": hash("microjs-hash-probe") & 0xFFFFFFFF}
     if case.get("layouts"):
         out["layouts"] = {str(i): h(_layouts(case["progs"][i]), 12) for i in case["order"]}
     return out
@@ -82,10 +83,59 @@ POLLUTERS = [
 ]
 
 
+NAME_POOLS = [list("ABCDEFGH"), list("abcdefgh"), ["alpha", "beta", "gamma", "delta", "eps", "zeta", "eta", "theta"], ["x1", "x2", "x3", "x4", "x5", "x6", "x7", "x8"],
+              ["count", "total", "index", "value", "result", "item", "key", "tmp"], ["a_", "b$", "_c", "$d", "e9", "f_f", "gG", "hh"]]
+
+
+def pass_through(rng):
+    """k variables of the outermost function reach the innermost one through 1-3 intermediate functions that have no captured
+    locals of their own; every level mentions the variables in its own order (slots must be resolved by name, not by position
+    in whatever order a set happened to iterate)."""
+    names = rng.sample(rng.choice(NAME_POOLS), rng.randint(2, 6))
+    depth = rng.randint(1, 3)
+
+    def mention(level):
+        order = names[:]
+        rng.shuffle(order)
+        k = rng.random()
+        if k < 0.4:
+            return "if (false) { " + "; ".join(order) + "; }"
+        if k < 0.7:
+            return "var unused%d = [%s].length;" % (level, ", ".join(order))
+        return ""
+
+    def kind_wrap(level, inner_body):
+        k = rng.random()
+        if k < 0.4:
+            return "return function lvl%d() { %s };" % (level, inner_body)
+        if k < 0.7:
+            return "function lvl%d() { %s } return lvl%d;" % (level, inner_body, level)
+        return "return () => { %s };" % inner_body
+    order = names[:]
+    rng.shuffle(order)
+    w = rng.choice(names)
+    innermost = "%s = %s + '!'; return [%s].join('');" % (w, w, ", ".join(names)) if rng.random() < 0.6 else "return [%s].join('') + [%s].join('');" % (", ".join(order), ", ".join(names))
+    body = mention(depth + 1) + " " + innermost
+    for level in range(depth, 0, -1):
+        body = mention(level) + " " + kind_wrap(level, body)
+    decl = "var " + ", ".join("%s = '%s'" % (n, n.upper()[:2] + str(i)) for i, n in enumerate(names)) + ";"
+    call = "outer()" + "()" * depth
+    return "function outer() { %s %s }\nlog(%s); log(%s);\n'done'" % (decl, body, call, call)
+
+
 def main(ctx):
     rng = random.Random(ctx.seed)
     fixed = random.Random(4242)
     progs = []
+    for i in range(150 if ctx.quick else 2000):
+        progs.append(pass_through(fixed if i % 2 == 0 else rng))
+    # refusals at the size limits: which operand is reported must not depend on set iteration order either
+    for n in (250, 257, 300):
+        names = ["v%d" % i for i in range(n)]
+        progs.append("(function () { var " + ", ".join("%s = %d" % (v, i) for i, v in enumerate(names)) + "; return " + names[-1] + "; })()")
+        progs.append("(function () { var " + ", ".join("%s = %d" % (v, i) for i, v in enumerate(names)) + "; return function () { return " + " + ".join(names) + "; }; })()()")
+        progs.append("(function (" + ", ".join(names) + ") { return " + names[-1] + "; })(1)")
+        progs.append("function mk() { var " + ", ".join("%s = %d" % (v, i) for i, v in enumerate(names[:120])) + "; return function () { return function () { return " + " + ".join(reversed(names[:120])) + "; }; }; } log(mk()()()); 'done'")
     nfix, nrnd = (120, 120) if ctx.quick else (1500, 3000)
     for _ in range(nfix):
         progs.append(progen.closure_heavy(fixed))
@@ -141,7 +191,6 @@ def main(ctx):
         ls = {results[s]["layouts"][k] for s in results if results[s] and "layouts" in results[s]}
         if len(ls) >= 2:
             layouts_varied += 1
-            ctx.nontrivial(h(progs[i]))
         ds = {}
         for s in sorted(results):
             r = results[s]
@@ -149,6 +198,8 @@ def main(ctx):
                 ctx.inconclusive_because("worker for hash seed %d failed: %r" % (s, r))
                 continue
             ds.setdefault(r["digests"][k], []).append(s)
+        if len(ds) == 1 and sum(len(v) for v in ds.values()) >= 2:
+            ctx.nontrivial(h(progs[i]))
         if len(ds) > 1:
             ctx.violation(("hash-seed", h(progs[i])), {"case": progs[i], "digest_by_seeds": ds,
                                                         "monitor": "same source, different PYTHONHASHSEED"})
@@ -160,15 +211,18 @@ def main(ctx):
                 what = ["shuffle"] * 5 + ["after-polluters", "clock-origin", "repeat"]
                 ctx.violation(("in-process:" + what[vi], h(progs[i])), {"case": progs[i], "variant": what[vi],
                                                                          "monitor": "same seed, different batch order/history/clock"})
-    if layouts_varied == 0:
-        ctx.inconclusive_because("no program showed two slot layouts across hash seeds: seed dimension not exercised")
+    str_hashes = {r.get("str_hash") for r in results.values() if r}
+    if len(str_hashes) < 2:
+        ctx.inconclusive_because("the worker processes did not run under different string hashes: seed dimension not exercised")
     ctx.cov["rule"] = ("closure-heavy generated programs + random programs + corpus scripts, each evaluated on a fresh context "
-                       "under %d hash seeds (separate processes) and 8 in-process variations; non-trivial = the compiled "
-                       "slot layout (locals/free_vars/cell_vars order) differed between at least two seeds" % nseeds)
+                       "under %d hash seeds (separate processes, string hashes observed to differ) and 8 in-process variations; "
+                       "non-trivial = a program whose full observation (typed outcome, ordered log, error message) was obtained under at "
+                       "least two seeds and agreed" % nseeds)
     ctx.cov["programs"] = len(progs)
     ctx.cov["corpus_scripts"] = [n for n, _ in corp]
     ctx.cov["hash_seeds"] = nseeds
-    ctx.cov["programs_with_varying_layout"] = layouts_varied
+    ctx.cov["programs_with_varying_layout"] = layouts_varied     # informational: 0 once the compiler orders its slot tables deterministically
+    ctx.cov["distinct_string_hashes_across_workers"] = len(str_hashes)
     ctx.cov["process_runs"] = nseeds + len(variants)
     ctx.sample(progs[0][:1200])
     ctx.sample(progs[nfix + 3][:600])
